@@ -20,12 +20,13 @@ def delays(interval, n=12):
 
 # A configuration fixes the producer's settings and the table of sends the schedule may use.
 def make_cfg(name, batch_n, batch_b, batch_t, max_attempts, acks, sends, interval=0.25):
-    """sends: list of (topic, nmsgs, nbytes_per_msg or None for null messages)"""
+    """sends: list of (topic, nmsgs, nbytes_per_msg; None: null messages; negative: a null message followed by
+    messages of that many bytes)"""
     return {"name": name, "batch_n": batch_n, "batch_b": batch_b, "batch_t": batch_t, "max_attempts": max_attempts,
             "acks": acks, "sends": sends, "interval": interval}
 
 
-SENDS = [("a", 1, 3), ("a", 2, None), ("b", 1, 5), ("a", 1, 4), ("b", 2, 2), ("a", 3, 1), ("b", 1, None), ("a", 1, 6)]
+SENDS = [("a", 1, 3), ("a", 2, None), ("b", 1, 5), ("a", 1, 4), ("b", 2, 2), ("a", 3, -2), ("b", 1, None), ("a", 1, 6)]
 CONFIGS = [
     make_cfg("unbatched-acks1", 1, 1, 0, 2, 1, SENDS),
     make_cfg("batch-n2-t", 2, 0, 1.0, 2, 1, SENDS),
@@ -40,7 +41,7 @@ def cfg_constants(cfg):
     fn = lambda vals: " @@ ".join("(%d :> %s)" % (i + 1, v) for i, v in enumerate(vals))
     defs = ["TopicOfDef == " + fn('"%s"' % s[0] for s in cfg["sends"]),
             "CntOfDef == " + fn(s[1] for s in cfg["sends"]),
-            "BytesOfDef == " + fn((0 if s[2] is None else s[1] * s[2]) for s in cfg["sends"]),
+            "BytesOfDef == " + fn(send_bytes(s) for s in cfg["sends"]),
             'PartsOfDef == [t \\in {"a", "b"} |-> {0, 1}]',
             "RetryDef == <<%s>>" % ", ".join(map(str, delays(cfg["interval"])))]
     consts = ["  Sids = {%s}" % ", ".join(str(i + 1) for i in range(n)), "  TopicOf <- TopicOfDef", "  CntOf <- CntOfDef",
@@ -51,8 +52,15 @@ def cfg_constants(cfg):
     return defs, consts
 
 
+def send_bytes(s):
+    topic, n, b = s
+    return 0 if b is None else n * b if b > 0 else (n - 1) * -b
+
+
 def msgs_of(cfg, sid):
     topic, n, b = cfg["sends"][sid - 1]
+    if b is not None and b < 0:
+        return [None] + [(b"%d.%d:" % (sid, j)).ljust(-b, b"x")[:-b] for j in range(1, n)]
     return [None if b is None else (b"%d.%d:" % (sid, j)).ljust(b, b"x")[:b] for j in range(n)]
 
 
